@@ -45,7 +45,7 @@ def work(job):
             seq += [j, j]
         runs.append(("same process, after other programs, twice in a row", seq, 0, False, [i // 2 for i in range(len(seq))]))
         # (c) other hash seeds + junk, shuffled order
-        for hs in ([1, 4242] if tier == "quick" else [1, 7, 4242, 99991, 123456789]):
+        for hs in ([1, 2, 3, 4242] if tier == "quick" else [1, 2, 3, 5, 7, 4242, 99991, 123456789]):
             order = list(range(len(jobs)))
             rng.shuffle(order)
             runs.append((f"PYTHONHASHSEED={hs}, perturbed heap, order {order}", [jobs[i] for i in order], hs, True, order))
@@ -94,7 +94,7 @@ def main():
     h2 = hp("hist-same-names", 'out int a;\nout int target;\nparser { "x"; target = 7; }\n')
     h3 = hp("hist-undeclared", 'out int a;\nparser { "x"; target = 7; }\n')
     h4 = hp("hist-hook-and-macro", 'hook greet;\nmacro greet() { "hello "; }\nparser { greet(); "world"; }\n')
-    h5 = hp("hist-greedy-three", 'out int which;\nparser { greedy case { /[a-z]+/ -> { which = 1; } prio 1 "define" -> { which = 2; } prio 2 /defin[e]/ -> { which = 3; } } ";"; }\n')
+    h5 = hp("hist-greedy-three", 'out int which;\nparser { greedy case { /[a-z]+/ -> { which = 1; } prio 1 "define" -> { which = 2; } prio 1 /defin[e]/ -> { which = 3; } } ";"; }\n')
     h6 = hp("hist-macro-args", 'out int a;\nout int b;\nmacro two(out x, expr e) { x = e; "k"; }\nmacro one(out y) { two(y, [y + 1]); }\nparser { one(a); one(b); }\n')
     groups += [[h1, h2, h3, h4], [h4, h5, h1, h3], [h6, h1, h6, h2]]
     progs = progs + [h1, h2, h3, h4, h5, h6]
